@@ -174,8 +174,9 @@ def run(ck: common.Check):
         if r["status"] == "harness-error":
             ck.broken_obligation("harness-error:unit", r.get("detail", "")[-600:])
             continue
-        if r["status"] == "deadline":
-            stats["units_not_started_before_deadline"] = stats.get("units_not_started_before_deadline", 0) + 1
+        if r["status"] in ("deadline", "abandoned"):
+            k2 = "units_not_started_before_deadline" if r["status"] == "deadline" else "units_abandoned_after_grace_period"
+            stats[k2] = stats.get(k2, 0) + 1
             continue
         stats["units_finished"] += 1
         for k, v in (r.get("phase") or {}).items():
